@@ -149,6 +149,12 @@ ScopesT(toks, d, nth) ==
     TLCEval([k \in 1..Len(ps) |-> IF k = Len(ps) /\ d.kind # "awk" THEN [t |-> StripLastDelimiter(ps[k].t, d), p |-> ps[k].p]
                                   ELSE ps[k]])
 Scopes(line, d, nth) == ScopesT(Tokenize(line, d), d, nth)
+(* CODE-DERIVED (postProcessOptions): on the command line an --nth list that is a single all-fields expression     *)
+(* (.., 1.., ..-1, 1..-1) - or, outside extended-search mode, merely contains one - is dropped: the whole line is    *)
+(* searched and nothing is stripped.                                                                                 *)
+FullRange(r) == r.lo \in {0, 1} /\ r.hi \in {0, -1}
+EffectiveNth(nth, extended) == IF (~extended \/ Len(nth) = 1) /\ (\E k \in 1..Len(nth) : FullRange(nth[k])) THEN <<>> ELSE nth
+ExtendedKind(kind) == kind # "xexact"
 (* term kinds: "exact" ('t), "prefix" (^t), "suffix" (t$), "fuzzy" (t), "xexact" (--no-extended --exact);            *)
 (* case-sensitive, no normalisation, terms contain no blank.  What a kind means on a text is C01/C02's subject; the   *)
 (* definitions here are the plain ones.                                                                              *)
@@ -226,6 +232,9 @@ WithNthMatch(line, d, spec, index, nth, kind, term) == NthMatch(WithNthText(line
 Placeholder(line, d, nth, keepSpace) ==
     LET str == StripDelim(JoinT(Transform(Tokenize(line, d), nth)), d) IN
     IF keepSpace THEN str ELSE TrimBoth(str)
+(* CODE-DERIVED: without the r flag the replacement is single-quoted for the shell (FzfShell / C12 has the full rule;  *)
+(* this form holds for texts without a quote character)                                                              *)
+Quoted(s) == <<"'">> \o s \o <<"'">>
 (* {q:expr}: fields of the query, always AWK style; no delimiter stripping *)
 QueryPlaceholder(query, nth, keepSpace) ==
     LET str == JoinT(Transform(Tokenize(query, AwkD), nth)) IN
